@@ -12,6 +12,28 @@ pub(crate) type Notification<K, V> = (K, Arc<V>, EvictionReason);
 pub(crate) struct Notifier<K: Send, V: Send + Sync> {
   handle: JoinHandle<()>,
   _sender: mpsc::BoundedSyncSender<(K, Arc<V>, EvictionReason)>,
+  /// Verification seam H2: with background threads off the queue is drained by
+  /// `verif_pump` on the caller's thread instead of by the notifier thread.
+  #[cfg(excsn_fibre_verif)]
+  verif_inline: Option<(
+    parking_lot::Mutex<mpsc::BoundedSyncReceiver<Notification<K, V>>>,
+    Arc<dyn EvictionListener<K, V>>,
+  )>,
+}
+
+#[cfg(excsn_fibre_verif)]
+impl<K: Send, V: Send + Sync> Notifier<K, V> {
+  pub(crate) fn verif_pump(&self) -> usize {
+    let mut n = 0;
+    if let Some((rx, listener)) = &self.verif_inline {
+      let rx = rx.lock();
+      while let Ok((key, value, reason)) = rx.try_recv() {
+        listener.on_evict(key, value, reason);
+        n += 1;
+      }
+    }
+    n
+  }
 }
 
 impl<K: Send, V: Send + Sync> Notifier<K, V> {
@@ -30,6 +52,16 @@ impl<K: Send, V: Send + Sync> Notifier<K, V> {
       mpsc::BoundedSyncReceiver<Notification<K, V>>,
     ) = mpsc::bounded(NOTIFICATION_CHANNEL_CAPACITY);
 
+    #[cfg(excsn_fibre_verif)]
+    if !crate::verif::background_threads() {
+      let notifier = Self {
+        handle: thread::spawn(|| {}),
+        _sender: tx.clone(),
+        verif_inline: Some((parking_lot::Mutex::new(rx), listener)),
+      };
+      return (notifier, tx);
+    }
+
     let handle = thread::spawn(move || {
       // The main notifier loop.
       // The loop will automatically end when the channel is disconnected
@@ -44,6 +76,8 @@ impl<K: Send, V: Send + Sync> Notifier<K, V> {
       // Store the sender in a Box<dyn Any> to type-erase it,
       // since Notifier itself is not generic.
       _sender: tx.clone(),
+      #[cfg(excsn_fibre_verif)]
+      verif_inline: None,
     };
 
     (notifier, tx)
